@@ -33,11 +33,12 @@ META = dict(
                   'PSD / unit-diagonal correlations are checked numerically only (partial)',
                   'scipy.linalg.expm / IEEE doubles on both sides'],
     assumptions=['(a) 1e-8 of the raw scale (sum of the absolute terms of the combination); (b), (c) 1e-9 of the raw '
-                 'scale; (d) 1e-9 relative for uncentred quantities and 1e-9 of the raw scale E|XY| + |EX EY| for '
+                 'scale (third-order linearity, which compares two different Van Loan evaluations: 1e-6); (d) 1e-9 relative for uncentred quantities and 1e-9 of the raw scale E|XY| + |EX EY| for '
                  'centred ones (a covariance that cancels to 1e-8 of its raw moments carries no relative precision); '
-                 '(f) 1e-12 relative; TotalTreeHeightReward is not drawn together with block-counting rewards (its '
+                 '(e) correlation bounds widened by 1e-13 x E[TBL^2] / variance (rounding noise of a small variance); (f) 1e-12 relative; TotalTreeHeightReward is not drawn together with block-counting rewards (its '
                  '_get raises NotImplementedError on the block-counting state space: loud, reported separately); only '
-                 'the non-stiff regime (no PhaseGen warning logged) is compared'],
+                 'the non-stiff regime is compared: no PhaseGen warning logged and horizon <= 2000 mean tree heights '
+                 '(p2util.ill_scaled)'],
 )
 
 TH, TBL = ('th',), ('tbl',)
@@ -224,7 +225,8 @@ class Case:
                  1e-9 * (abs(x11) + 2 * abs(x12) + abs(x22)) + 1e-300, rewards=nm)
         # third order
         y1, y2 = self.M(3, [r1, r3, r1], center=False), self.M(3, [r2, r3, r1], center=False)
-        self.cmp('C15c:sum-reward:k3', y1 + y2, self.M(3, [S, r3, r1], center=False), 1e-9 * (abs(y1) + abs(y2)) + 1e-300,
+        # order 3 through two different Van Loan matrices: the accuracy C01 grants the implementation (1e-6 raw scale)
+        self.cmp('C15c:sum-reward:k3', y1 + y2, self.M(3, [S, r3, r1], center=False), 1e-6 * (abs(y1) + abs(y2)) + 1e-300,
                  rewards=nm)
 
     # (d) --------------------------------------------------------------------------------------------
@@ -242,9 +244,10 @@ class Case:
             self.rel('C15d:route:tree_height.mean', mean, float(val), route=name)
         for name, val in (('tree_height.moment(2)', th.moment(2)), ('tree_height.moment(2,center=True)', th.moment(2, center=True)),
                           ('Coalescent.moment(2)', coal.moment(2)), ('Coalescent.moment(2,center=True)', coal.moment(2, center=True)),
-                          ('Coalescent.moment(2,(TH,TH))', coal.moment(2, (rth, rth))), ('m2-mean^2', m2 - mean * mean),
-                          ('std^2', float(th.std) ** 2)):
+                          ('Coalescent.moment(2,(TH,TH))', coal.moment(2, (rth, rth))), ('m2-mean^2', m2 - mean * mean)):
             self.cmp('C15d:route:tree_height.var', var, float(val), 1e-9 * raw2, route=name)
+        if var > 1e-12:
+            self.cmp('C15d:route:tree_height.var', var, float(th.std) ** 2, 1e-9 * raw2, route='std^2')
         for name, val in (('tree_height.moment(2,center=False)', th.moment(2, center=False)),
                           ('Coalescent.moment(2,center=False)', coal.moment(2, center=False)),
                           ('Coalescent.moment(2,(TH,TH),center=False)', coal.moment(2, (rth, rth), center=False))):
@@ -345,11 +348,15 @@ class Case:
                     self.bad('C15e:sfs.cov:padded-bin-nonzero', bin=b, cov_row=sc[b].tolist(), corr_row=cr[b].tolist())
             for b in range(1, n):
                 if sv[b] > 1e-12:
-                    if not abs(cr[b, b] - 1.0) <= 1e-9:
-                        self.bad('C15e:sfs.corr:diagonal-not-one', bin=b, observed=float(cr[b, b]), var=float(sv[b]))
+                    # rounding noise of a small variance (absolute error ~1e-15 s2) widens the bound
+                    slack = 1e-9 + 1e-13 * s2 / sv[b]
+                    if not abs(cr[b, b] - 1.0) <= slack:
+                        self.bad('C15e:sfs.corr:diagonal-not-one', bin=b, observed=float(cr[b, b]), var=float(sv[b]),
+                                 slack=slack)
                     for c in range(1, n):
-                        if sv[c] > 1e-12 and not (np.isfinite(cr[b, c]) and abs(cr[b, c]) <= 1 + 1e-9):
-                            self.bad('C15e:sfs.corr:out-of-range', bins=[b, c], observed=float(cr[b, c]))
+                        slack2 = 1e-9 + 1e-13 * s2 / min(sv[b], sv[c]) if sv[c] > 1e-12 else 0.0
+                        if sv[c] > 1e-12 and not (np.isfinite(cr[b, c]) and abs(cr[b, c]) <= 1 + slack2):
+                            self.bad('C15e:sfs.corr:out-of-range', bins=[b, c], observed=float(cr[b, c]), slack=slack2)
 
     # (f) --------------------------------------------------------------------------------------------
     def memo_pairs(self):
@@ -435,6 +442,7 @@ class Case:
         with U.Guard() as g:
             T = float(self.coal.tree_height.t_max)
             k_lc = int(self.coal.lineage_counting_state_space.k)
+            th_mean = float(self.coal.tree_height.mean)
         if g.warned:
             ctx.count('warned')
             ctx.skipped += 1
@@ -442,6 +450,10 @@ class Case:
         if g.error:
             ctx.case(dict(cfg=cfg, error=g.error), None)
             self.bad('C15:exception', error=g.error, trace=g.trace)
+            return
+        if U.ill_scaled(T, th_mean):
+            ctx.count('ill-scaled-horizon')
+            ctx.skipped += 1
             return
         n, D = sum(cfg['n'].values()), len(cfg['n'])
         self.part('C15a', self.centring)
@@ -475,7 +487,7 @@ def one(ctx, i):
 
 def run(ctx):
     import check
-    n = 128 if ctx.quick else 700
+    n = 128 if ctx.quick else 600
     check.pmap(ctx, 'props.c15', 'one', list(range(n)), case_timeout=240 if ctx.quick else 1200)
 
 
